@@ -155,10 +155,11 @@ class Translator:
             self.cb_ctx.setdefault(th, []).append((t, r['which']))
             self.emit(i, 'ECleanupsBegin' if r['which'] == 'failure_cleanups' else 'ECallbacksBegin', a, t)
         elif ev == 'callback_begin':
-            which = self.cb_ctx[th][-1][1]
+            which = r.get('which') or self.cb_ctx[th][-1][1]
             self.emit(i, 'ECleanup' if which == 'failure_cleanups' else 'ECallback', a, t, self.fn_id(r['fn']))
         elif ev == 'run_end':
-            self.cb_ctx[th].pop()
+            if self.cb_ctx.get(th):
+                self.cb_ctx[th].pop()
             self.emit(i, 'ECleanupsEnd' if r['which'] == 'failure_cleanups' else 'ECallbacksEnd', a, t)
         elif ev == 'event_set':
             self.emit(i, 'EEventSet', a, t)
